@@ -792,3 +792,65 @@ def opt_validate(ctx):
     else:
         ctx.violation('LZIPWriter::new:dict-size-clamped', '-', 'LZIPWriter::new no longer stores dict_size.clamp(4 KiB, 512 MiB): out-of-range '
                       'dictionary sizes reach the header encoder and the encoder unvalidated')
+
+
+OPT_ALLOC_LIMIT = 1 << 34   # elements: anything a u32 option can reach (dict_size * small factor); a u64 option cannot stay below
+
+
+@rule('OPT-ALLOC', ['C19'], floor=6)
+def opt_alloc(ctx):
+    """No allocation in the writer-constructor call tree is sized by an unclamped 64-bit option (chunk /
+    member / block size, worker counts): `Vec::with_capacity(n)` panics with "capacity overflow" for
+    n > isize::MAX and aborts the process for sizes beyond memory, so such an option value would be a
+    panic instead of an error. Sizes derived from 32-bit options (dictionary size) are bounded by type."""
+    from rules.totality import ALLOC_SINKS
+    from lzlint.intervals import eval_lifted, INF
+    F = ctx.facts
+    roots = writer_ctor_roots(F)
+    if len(roots) < 8:
+        return ctx.anchor_missing('writer constructors / option methods (found %d)' % len(roots))
+    from rules.concurrency import worker_fns
+    workers = {f.path for f, _, _ in worker_fns(F)}
+    reach = {}
+    stack = list(roots)
+    cg = F.callgraph()
+    while stack:
+        f = stack.pop()
+        if f.path in reach or f.path in workers or f.kind == 'closure':
+            continue
+        reach[f.path] = True
+        for _, g in cg[f.path]:
+            stack.append(g)
+    iv = Intervals(F, scope=set(reach))
+    n = 0
+    cnt = {}
+    for p in sorted(reach):
+        f = F.by_path[p]
+        prov = None
+        for bi, t, c in f.calls():
+            idx = None
+            for nm, i in ALLOC_SINKS.items():
+                if c.is_(nm):
+                    idx = i
+            if idx is None or idx >= len(t['args']):
+                continue
+            prov = prov or Prov(f)
+            size = prov.operand(t['args'][idx], 0, '%d:T' % bi)
+            # a Layout argument: the byte size is the first argument of Layout::from_size_align
+            for x in expr_walk(size):
+                if x[0] == 'call' and x[1].endswith('from_size_align') and x[2]:
+                    size = x[2][0]
+                    break
+            base = '%s:%s' % (f.key, c.name)
+            cnt[base] = cnt.get(base, 0) + 1
+            key = base if cnt[base] == 1 else '%s#%d' % (base, cnt[base])
+            n += 1
+            r, where = eval_lifted(iv, f, bi, size, OPT_ALLOC_LIMIT)
+            if r.hi != INF and r.hi <= OPT_ALLOC_LIMIT:
+                ctx.ok(key, f.loc(bi), 'size %s in %r (%s)' % (expr_str(size)[:60], r, where), nontrivial=size[0] != 'const')
+            else:
+                ctx.violation(key, f.loc(bi), 'allocation of %s elements is sized by an option value without an upper clamp '
+                              '(interval %r, context %s): a huge chunk/member/block size panics with "capacity overflow" or '
+                              'aborts instead of returning an error' % (expr_str(size)[:70], r, where))
+    if n == 0:
+        ctx.anchor_missing('allocation sites in the writer constructors')
